@@ -1,5 +1,5 @@
 // C17: configuration read-back, rebuilding from reported configurations, positional parameter-pack helper
-#include "vf_probe.hpp"
+#include "vf_catalogue.hpp"
 #include <covfie/core/backend/primitive/array.hpp>
 #include <covfie/core/backend/primitive/constant.hpp>
 #include <covfie/core/backend/primitive/identity.hpp>
@@ -127,6 +127,54 @@ template <size_t N, size_t M> static void backups_h()
     for (size_t j = 0; j < M; j++) ok = ok && vf::same_bits<float>(r2.default_value[j], c2.default_value[j]) && vf::same_bits<float>(r1.default_value[j], c1.default_value[j]);
     vf_assert(ok, 1);
     vf_observe_u64(2);
+}
+
+// every layer's accessors: get_configuration() reports exactly the stored configuration, get_backend() is the next
+// layer inwards (same object), for all configuration values; over the serialisable-stack catalogue
+template <class O> static bool accessors_ok(const O & o)
+{
+    using B = typename O::parent_t;
+    constexpr vf::kind k = vf::kind_of<B>::value;
+    if constexpr (k == vf::K_ARRAY) {
+        return o.get_configuration()[0] == o.m_size;
+    } else if constexpr (k == vf::K_CONSTANT) {
+        return vf::same_arr(o.get_configuration(), o.m_value);
+    } else if constexpr (k == vf::K_IDENTITY || k == vf::K_PROBE) {
+        return true;
+    } else if constexpr (k == vf::K_STRIDED || k == vf::K_MORTON || k == vf::K_HILBERT) {
+        return vf::same_arr(o.get_configuration(), o.m_sizes) && static_cast<const void *>(&o.get_backend()) == static_cast<const void *>(&o.m_storage) &&
+               accessors_ok(o.get_backend());
+    } else if constexpr (k == vf::K_CLAMP) {
+        auto c = o.get_configuration();
+        return vf::same_arr(c.min, o.m_min) && vf::same_arr(c.max, o.m_max) && static_cast<const void *>(&o.get_backend()) == static_cast<const void *>(&o.m_backend) &&
+               accessors_ok(o.get_backend());
+    } else if constexpr (k == vf::K_BACKUP) {
+        auto c = o.get_configuration();
+        return vf::same_arr(c.min, o.m_min) && vf::same_arr(c.max, o.m_max) && vf::same_arr(c.default_value, o.m_default) &&
+               static_cast<const void *>(&o.get_backend()) == static_cast<const void *>(&o.m_backend) && accessors_ok(o.get_backend());
+    } else if constexpr (k == vf::K_AFFINE) {
+        constexpr size_t N = B::contravariant_input_t::dimensions;
+        auto c = o.get_configuration();
+        bool r = true;
+        for (size_t i = 0; i < N; i++)
+            for (size_t j = 0; j < N + 1; j++) r = r && vf::same_bits(c(i, j), o.m_transform(i, j));
+        return r && static_cast<const void *>(&o.get_backend()) == static_cast<const void *>(&o.m_backend) && accessors_ok(o.get_backend());
+    } else {
+        return static_cast<const void *>(&o.get_backend()) == static_cast<const void *>(&o.m_backend) && accessors_ok(o.get_backend());
+    }
+}
+
+template <int K> static void accessors_h()
+{
+    using B = typename stack<K>::type;
+    auto o = vf::blank<B>(1);
+    vf::sym(o);
+    field<B> f(make_parameter_pack(std::move(o)));
+    vf_assert(accessors_ok(f.backend()), 1);
+    // the view built from the field sees the same configuration-dependent behaviour: non-owning accessors
+    typename field<B>::view_t v(f);
+    (void)v;
+    vf_observe_u64(K);
 }
 
 extern "C" void vf_main()
